@@ -635,14 +635,12 @@ class Optimizer(object):
 
                 while len(idx) < n_points:
                     t = len(self.sampled)
-                    if t == 0:
+                    value_range = np.abs(self._max_value - self._min_value)
+                    if t == 0 or value_range == 0:
+                        # all acquisition values are equal: uniform distribution
                         beta = 0
                     else:
-                        beta = (
-                            gamma
-                            * np.log(t)
-                            / np.abs(self._max_value - self._min_value)
-                        )
+                        beta = gamma * np.log(t) / value_range
 
                     probs = boltzmann_distribution(values, beta)
 
